@@ -100,6 +100,16 @@ var accessors = map[string]string{
 	"req.path":              `$req->path()`,
 	"req.formValue":         `$req->formValue("p")`,
 	"req.method":            `$req->method()`,
+	"req.input":             `$req->input("x")`,
+	"req.pathValue":         `$req->pathValue("id")`,
+	"req.userAgent":         `$req->userAgent()`,
+	"req.referer":           `$req->referer()`,
+	"req.fullUrl":           `$req->fullUrl()`,
+	"req.postFormValue":     `$req->postFormValue("p")`,
+	"req.all":               `json_encode($req->all())`,
+	"req.only":              `json_encode($req->only("x"))`,
+	"req.body":              `$req->body()`,
+	"req.url":               `$req->url()`,
 }
 
 var accNames []string
@@ -292,7 +302,7 @@ $server = new Server('127.0.0.1', 0);
 		fmt.Fprintf(&b, "$server->middleware(function ($request, $response, $next) {\n  $t = $request->header(\"X-T\");\n  $response->header(\"X-MW%d\", $t);\n  __gate();\n  $next($request, $response);\n  $request->attribute(\"after%d\", $t);\n}, %d);\n", i, i, i)
 	}
 	for h, hd := range w.Handlers {
-		fmt.Fprintf(&b, "$server->%s('/h%d', function ($req, $res) {\n  $out = \"\";\n  $id = $req->header(\"X-Id\");\n  $k = (int)$req->header(\"X-K\");\n", hd.Method, h)
+		fmt.Fprintf(&b, "$server->%s('/h%d/{id}', function ($req, $res) {\n  $out = \"\";\n  $id = $req->header(\"X-Id\");\n  $k = (int)$req->header(\"X-K\");\n", hd.Method, h)
 		for bi, bl := range hd.Blocks {
 			fmt.Fprintf(&b, "  __fail($id, %d);\n", bi)
 			lab := fmt.Sprintf("b%d.%s", bi, bl.Kind)
@@ -354,7 +364,7 @@ $server = new Server('127.0.0.1', 0);
 func request(w *W, i int) *http.Request {
 	q := w.Reqs[i]
 	hd := w.Handlers[q.H]
-	target := fmt.Sprintf("/h%d?x=%s&k=%d", q.H, q.X, q.K)
+	target := fmt.Sprintf("/h%d/id%s?x=%s&k=%d", q.H, q.X, q.X, q.K)
 	var form url.Values
 	method := "GET"
 	if hd.Method == "post" {
@@ -362,7 +372,7 @@ func request(w *W, i int) *http.Request {
 		form = url.Values{"p": {"p" + q.X}}
 	}
 	return hx.NewRequest(method, target, form, map[string]string{"c": "c" + q.X},
-		map[string]string{"X-T": "t" + q.X, "X-Id": fmt.Sprint(i), "X-K": fmt.Sprint(q.K)})
+		map[string]string{"X-T": "t" + q.X, "X-Id": fmt.Sprint(i), "X-K": fmt.Sprint(q.K), "User-Agent": "ua-" + q.X, "Referer": "http://ref.local/" + q.X})
 }
 
 type obs struct {
